@@ -45,7 +45,7 @@ def evaluate(seed, run_tests=True):
         if rc:
             out['error'] = 'patch does not apply: ' + o[-300:]
             return out
-        env = dict(os.environ, PYTHONDONTWRITEBYTECODE='1')
+        env = dict(os.environ, PYTHONDONTWRITEBYTECODE='1', PYTHONPATH=wt)
         if run_tests:
             rc, o = sh([PY, '-m', 'pytest', '-q', '-p', 'no:cacheprovider',
                         '--timeout=900', '-q', '--deselect', DESELECT],
